@@ -10,8 +10,8 @@
     (`MembersRel`: field / argument / input-field attributes as far as the constructors pass them on, all of them for the
     variant of /repo) followed by what the extension adds (`ExtIntact`): exactly the conclusion of `untouched_preserved_extend`,
     now read in the FINAL heap and against the source as it was when the run started.
-  Not covered: closedness of extension results (`extend_closed` is not proved in general — the direct oracle checks it on the live
-  objects after every step), and operations applied to RESULTS of earlier steps (chains) beyond `transform` of a closed schema.
+  Closedness and well-formedness of the extension results, and operations applied to the RESULT of any earlier step, are
+  `extend_closed_wf` (Props/C14_extend_closed.lean) and `history_closed_framed` (Props/C14_history.lean).
 -/
 import PyGqlModel.Props.C14_sequence
 import PyGqlModel.Props.C14_extend
